@@ -69,6 +69,12 @@ class Ctx:
                 else:
                     self.notes.append('constants inventory: ' + g.stdout.strip())
                 ok, names, assumptions, logtxt = core.check_property_file(self.pid)
+                # the binary64 side of the same obligation (not imported by Properties/*.v, which stay free of the floating-point library)
+                okf, outf = core.coq_make(['Proofs/ConstSitesF.vo'])
+                names = list(names) + ['consts_agree_F_now']
+                if not okf:
+                    ok = False
+                    logtxt = (logtxt or '') + outf[-2000:]
         else:
             ok, names, assumptions, logtxt = core.check_property_file(self.pid)
         self.obligations = list(names)
@@ -83,6 +89,7 @@ class Ctx:
                 # which constants of the source are not the model's any more: (unexplained literals, lost constants, lost names)
                 core.coq_make(['Proofs/ConstSites.vo'])
                 payload['constants_disagreement'] = core.eval_term(self.pid + 'k', 'consts_disagreement', 'From RDM Require Import Proofs.ConstSites.\n')[:3000]
+                payload['broken'] = 'Properties/%s.v (or Proofs/ConstSitesF.v: consts_agree_F_now)' % self.pid
             if self.pid == 'C02':
                 # which map iterations of the source are not the classified code any more
                 payload['uncovered_map_iterations'] = core.eval_term('C02u', 'uncovered_sites', 'From RDM Require Import Proofs.MapSites.\n')[:3000]
